@@ -84,6 +84,16 @@ func (t *T) StrictHashReference(key string) *T {
 	return MakeNil()
 }
 
+func (t *T) hashEntry(key string) (*T, bool) {
+	for _, variant := range t.variants {
+		if variant.key == key {
+			return variant.GetKeyValue(), true
+		}
+	}
+
+	return nil, false
+}
+
 func (t *T) HashReference(key string) *T {
 	for _, variant := range t.variants {
 		if variant.key == key {
@@ -102,9 +112,11 @@ func (t *T) MergeHash(variantT *T) {
 	for _, variant := range variantT.variants {
 		newValueT := variant.GetKeyValue()
 
-		existT := t.StrictHashReference(variant.key)
+		existT, isExist := t.hashEntry(variant.key)
 
-		if existT.GetType() == NIL {
+		// only a key that is absent is added as it is: a stored nil is a value
+		// like any other and is merged with the new one
+		if !isExist {
 			t.AppendHashVariant(variant)
 			continue
 		}
